@@ -64,6 +64,11 @@ func c16(seed uint64, n int, args []string) {
 			}
 		}
 	}
+	if what == "all" || what == "pending" {
+		if err := c16pending(); err != nil {
+			emit(map[string]interface{}{"kind": "error", "scenario": "cancelled-request-then-renewal", "err": err.Error()})
+		}
+	}
 	if what == "all" || what == "signwindow" {
 		r := rng.New(seed)
 		for _, sp := range []c11spec{
@@ -132,5 +137,59 @@ func c16live(lifetimeMS, revisedMS uint32, dur time.Duration, srvClock time.Dura
 	emit(map[string]interface{}{"kind": "live", "server_clock_offset_ms": float64(srvClock.Milliseconds()), "lifetime_ms": effective,
 		"requested_ms": lifetimeMS, "revised_ms": revisedMS, "token_lifetime_ns": tokenNS, "duration_ms": float64(dur.Milliseconds()), "opn_at_ms": opn,
 		"requests": total, "failed": failed, "errors": errs, "server_errors": p.Srv.Errs(), "stall_ms": stallMS()})
+	return nil
+}
+
+// c16pending: a request whose context is already done, then a renewal, then a request. Every request counted in
+// pendingReq must be released again on every path, or the renewal waits for ever with the gate locked.
+func c16pending() error {
+	p, err := NewPair(PairOpts{Timeout: 2 * time.Second})
+	if err != nil {
+		return err
+	}
+	defer p.Close()
+	stop := make(chan struct{})
+	go autoRespond(p, stop)
+	defer close(stop)
+	stallReset()
+	ctx, cancel := context.WithCancel(context.Background())
+	cancel()
+	first := p.SC.SendRequestWithTimeout(ctx, mkRequest(tyWrite, 1, 0), nil, time.Second, nil2)
+	rdone := make(chan error, 1)
+	t0 := time.Now()
+	go func() { rdone <- p.SC.Renew(context.Background()) }()
+	renewDone, renewRes := false, ""
+	select {
+	case e := <-rdone:
+		renewDone = true
+		if e != nil {
+			renewRes = e.Error()
+		}
+	case <-time.After(2500 * time.Millisecond):
+	}
+	renewMS := float64(time.Since(t0).Microseconds()) / 1000
+	qdone := make(chan error, 1)
+	t1 := time.Now()
+	go func() {
+		qdone <- p.SC.SendRequestWithTimeout(context.Background(), mkRequest(tyWrite, 2, 0), nil, 200*time.Millisecond, nil2)
+	}()
+	reqDone, reqRes := false, ""
+	select {
+	case e := <-qdone:
+		reqDone = true
+		if e != nil {
+			reqRes = e.Error()
+		}
+	case <-time.After(2500 * time.Millisecond):
+	}
+	reqMS := float64(time.Since(t1).Microseconds()) / 1000
+	fr := ""
+	if first != nil {
+		fr = first.Error()
+	}
+	emit(map[string]interface{}{"kind": "pending", "scenario": "cancelled-request-then-renewal", "first_request_result": fr,
+		"renew_done": renewDone, "renew_result": renewRes, "renew_ms": renewMS,
+		"request_done": reqDone, "request_result": reqRes, "request_ms": reqMS, "request_timeout_ms": 200, "stall_ms": stallMS(),
+		"wire": wireOf(p.Proxy.Frames("c2s"))})
 	return nil
 }
